@@ -302,9 +302,12 @@ func properties() map[string]*PropertySpec {
 				Tweak: func(c *HarnessCfg, tier string) { c.DecodeWidths = "def=2" }},
 			{Name: "H_C02_truncated", Native: true, Reach: []string{"truncated"},
 				Bound: "a stream of 0..2 arbitrary bytes followed by EOF (not a complete element): read error, no panic; the bytes are visible to gldap through bufio.Reader.Peek"},
-			{Name: "H_C02_readRequest_wide", Native: true, Tiers: "thorough", Reach: []string{"returned", "decoded"},
-				Bound: "as quick, with <= 2 controls per message and control values re-decoded at width 3",
-				Tweak: func(c *HarnessCfg, tier string) { c.DecodeWidths = "def=3"; c.MaxPaths = 100000 }},
+			{Name: "H_C02_readRequest_2ctl", Native: true, Tiers: "thorough", Reach: []string{"returned", "decoded"},
+				Bound: "as quick, with <= 2 controls per message",
+				Tweak: func(c *HarnessCfg, tier string) { c.DecodeWidths = "def=2"; c.MaxPaths = 400000 }},
+			{Name: "H_C02_readRequest_w3", Native: true, Tiers: "thorough", Reach: []string{"returned", "decoded"},
+				Bound: "as quick, with control values re-decoded at width 3",
+				Tweak: func(c *HarnessCfg, tier string) { c.DecodeWidths = "def=3"; c.MaxPaths = 400000 }},
 		}})
 	return m
 }
